@@ -108,6 +108,7 @@ func writeEvidence(prop, tier string, seed int64, conf propConf, m *workerResult
 }
 
 var rules = map[string]string{
+	"C12": "each evaluation is one transition: a fresh workspace is initialised, the update history replayed with UpdateFile on the real Workspace and the last update applied; non-trivial = the last update changes the file's include list; states = distinct (disk variants, index dump, graph dump) per shard",
 	"C10": "each case is one include graph (adjacency matrix, optional dangling edge / depth limit / oversized file / path form) materialised on disk and loaded once; distinct by construction (the enumeration never repeats a parameter vector); non-trivial = the graph has a cycle, a second acyclic path to a file, a dangling edge or a limit in force",
 	"C11": "each evaluation is one transition (history + one operation) executed on a fresh real Loader by replay; non-trivial = the last operation is a load that meets a non-empty cache; states are distinct (disk variants, cache contents, limits)",
 	"C14": "every schedule within the preemption bound is one race-detected execution of the real server; non-trivial = at least one preemption was taken; distinct = distinct choice sequences (the DFS never repeats one)",
@@ -115,6 +116,7 @@ var rules = map[string]string{
 }
 
 var assumptions = map[string][]string{
+	"C12": {"every update writes the new content to disk and passes the same content to UpdateFile (what didSave does)", "payee templates / commodity formats may depend on file order when member files disagree (the rebuild itself ranges over a map)"},
 	"C10": {"files are regular files in one directory tree on tmpfs; HOME points into the scratch tree"},
 	"C11": {"a file is only changed on disk together with InvalidateFile (as didChange/didSave do)"},
 	"C14": {"race-invisible cooperative hand-off (plain word, //go:norace, GOMAXPROCS=1): the race detector sees only the synchronisation of the production code", "responses are compared with sequential executions in which background computations are finished or pending (never reordered); configuration refreshes may be pending at request time, superseded document analyses may not be used"},
